@@ -86,8 +86,16 @@ def shard_fn(shard, nshards, seed, tier, exe, ndocs, nenum):
                 plan.append(("skip",))
         if rng.random() < 0.15:
             # the path may already hold an older file (empty, shorter or much longer than what is written now)
-            cmds.append("FDF x%s 1 %d %d %d" % (("/dev/shm/vf_c20_%d_%d.json" % (shard, n)).encode().hex(), flags, rng.choice([0, 0, 1, 50, 5000, 100000]), rng.randrange(2)))
-            plan.append(("file",))
+            cf = rng.random() < 0.3
+            if cf:
+                # under a custom double format that prints trailing zeros: the file holds what the serializer gives for the flags that were asked for (PLAIN for json_object_to_file), nothing trimmed
+                cmds.append("DFMT 0 x" + rng.choice([b"%.2f", b"%.6f", b"%.3e"]).hex())
+                plan.append(("skip",))
+            cmds.append("FDF x%s %d %d %d %d" % (("/dev/shm/vf_c20_%d_%d.json" % (shard, n)).encode().hex(), rng.choice([1, 1, 1, 4]), flags, rng.choice([0, 0, 1, 50, 5000, 100000]), rng.randrange(2)))
+            plan.append(("file", cf))
+            if cf:
+                cmds.append("DFMT 0 -")
+                plan.append(("skip",))
         cmds.append("PUT 0")
         add(cmds, plan)
         # ---- reading ----
@@ -114,6 +122,10 @@ def shard_fn(shard, nshards, seed, tier, exe, ndocs, nenum):
                 err_at, eno = -1, 0
             cmds.append("FDR %d %s %d %d x%s" % (depth, caps, err_at, eno, text.hex()))
             plan.append(("r", caps, err_at, eno, depth))
+        if rng.random() < 0.05:
+            # writing "no object" must fail before anything is created; and a process without standard input (descriptor 0 free) must still be able to write and read files
+            cmds.append("FDF x%s 3 %d" % (("/dev/shm/vf_c20_%d_%d_n.json" % (shard, n)).encode().hex(), rng.randrange(64)))
+            plan.append(("nullobj",))
         if rng.random() < 0.1:
             # (also with a path long enough that path + message exceed any fixed message buffer: there must still be a message)
             cmds.append("FDF x%s 0" % rng.choice([b"/nonexistent/dir/file.json", b"/nonexistent/" + b"d" * rng.choice([150, 190, 240, 400, 1000]) + b"/file.json"]).hex())
@@ -186,6 +198,12 @@ def shard_fn(shard, nshards, seed, tier, exe, ndocs, nenum):
                     sh.count("write.error_injected")
             elif st[0] == "skip":
                 continue
+            elif st[0] == "nullobj":
+                if f["rc"] != "-1" or f["rc2"] != "-1":
+                    key, what = "null-object-written", "json_object_to_file[_ext](path, NULL) returned %s / %s" % (f["rc"], f["rc2"])
+                elif f["created"] != "0" or f["opens"] != f["closes"]:
+                    key, what = "null-object-touched-the-file-system", "json_object_to_file[_ext](path, NULL): %s" % ln
+                sh.count("file.null_object")
             elif st[0] == "fifo":
                 if f["obj"] != f["mem"] or f["eq"] != "1":
                     key, what = "read-from-slow-fifo", "json_object_from_file on a FIFO with a lagging writer: %s (the same bytes parse from memory: %s)" % (ln, f["mem"])
@@ -241,11 +259,11 @@ def shard_fn(shard, nshards, seed, tier, exe, ndocs, nenum):
                 sh.count("file.unopenable")
             elif st[0] == "file":
                 # (reading back may legitimately fail: top-level scalars need a terminator, deep spines exceed the default depth)
-                if int(f["rc"]) != 0 or f["opens"] != f["closes"] or f["opens"] != "2" or (int(f["obj"]) and not int(f["eq"])):
+                if int(f["rc"]) != 0 or f["opens"] != f["closes"] or f["opens"] != "2" or (int(f["obj"]) and not int(f["eq"]) and not (len(st) > 1 and st[1])):   # (a custom double format may round: no equality after reading back then)
                     key, what = "file-roundtrip", "to_file_ext/from_file round trip: %s" % ln
                 elif f["raw_eq"] != "1":
                     key, what = "file-bytes", "the file does not hold exactly the serialization after json_object_to_file[_ext]: %s bytes in the file, %s expected (%s)" % (f["fsize"], f["want"], cmd.split()[4:])
-                sh.count("file.roundtrip" + (".over_existing_file" if cmd.split()[4] != "0" else ""))
+                sh.count("file.roundtrip" + (".over_existing_file" if cmd.split()[4] != "0" else "") + (".without_stdin" if cmd.split()[2] == "4" else ""))
             if key:
                 sh.violation("C20/" + key, what, rep)
             sh.nontrivial(cmd[:4000])
